@@ -828,9 +828,10 @@ Proof.
   intros sp0 PP. destruct PP as [Qsp _ Qfp _ Qsa _ _ _ _ _ _ _]. fold sp0 in Qsp, Qfp, Qsa.
   destruct arch_consts as [_ [_ [Hlr [_ [_ _]]]]]. destruct x86_cc as [Hsz _].
   assert (Efs : fo_sa_from_sa o = if fi_has_fp f then ws + ws else ws + pp).
-  { change (fo_sa_from_sa o) with (if fi_has_fp f then (if has_link_reg a then 0 else qget (cc_srsize cc) 0) + qget (cc_srsize cc) 0
+  { change (fo_sa_from_sa o) with (if fi_has_fp f && negb (fi_sa_fix f && has_link_reg a)
+                                   then (if has_link_reg a then 0 else qget (cc_srsize cc) 0) + qget (cc_srsize cc) 0
                                    else (if has_link_reg a then 0 else qget (cc_srsize cc) 0) + fin_pp f).
-    rewrite Hlr, Hsz. reflexivity. }
+    rewrite Hlr, Hsz. rewrite andb_false_r. cbn [negb]. rewrite andb_true_r. reflexivity. }
   splits.
   - intros Hne. rewrite (Qsa Hne), Efs. unfold x86_sa_value. destruct (fi_has_fp f); lia.
   - intros Hfp. rewrite (Qfp Hfp), Efs, Hfp. lia.
